@@ -22,6 +22,11 @@ R28h what waits for the log interval is stored before the memory is given up: Fr
      engine data only through `_persist_tag_values(.., flush=True)`, and Aggregator.shutdown calls it for every engine - values
      accepted since the last interval exist in EngineData.tags_info only, the restore after a reconnect brings back the newest stored
      tick time, and the engine's snapshot cannot re-deliver them (a tag's tick time is its last change, which is not newer).
+R28i stored once also across a crash inside run_stopped: run_stopped commits the recent run and then, in a second commit, clears the run
+     id of the recent engine. An aggregator that dies between the two finds a run id at the restart whose run is already stored; the
+     restore must ask (a RecentRun look-up by the stored run id) before it continues that run - otherwise the resent run_stopped, or
+     the next run_started, stores it a second time. Open known finding (the repair narrows the restore, which R28a/R30e deliberately
+     forbid for any other condition; it needs those rules to learn this one exception first).
 """
 from __future__ import annotations
 
@@ -158,6 +163,7 @@ def restore_rules(ctx, RULE: str) -> None:
 
 
 def run(ctx) -> None:
+    _r28i(ctx)
     _r28h(ctx)
     prog = ctx.prog
     for r, d in [("R28a", "restore on register"), ("R28b", "store before delete on disconnect"),
@@ -339,3 +345,23 @@ def _r28h(ctx) -> None:
         ctx.ok("R28h", inst)
     else:
         ctx.fail("R28h", sd, sd.node, inst, "a graceful restart of the aggregator drops the values that wait for the log interval")
+
+
+
+def _r28i(ctx) -> None:
+    import ast as _ast
+    from ..model import norm as _norm
+    prog = ctx.prog
+    ctx.rule("R28i", "the restore does not continue a run that is already stored as recent run")
+    tr = prog.func("openpectus.aggregator.aggregator:FromEngine._try_restore_reconnected_engine_data")
+    ctx.analysed(tr)
+    asks = any(isinstance(c, _ast.Call) and isinstance(c.func, _ast.Attribute) and c.func.attr == "get_by_run_id"
+               and "RecentRun" in _norm(c.func.value) or (isinstance(c, _ast.Call) and isinstance(c.func, _ast.Attribute)
+                                                        and c.func.attr == "get_by_run_id") for c in _ast.walk(tr.node))
+    inst = "_try_restore_reconnected_engine_data: a stored run id is looked up among the recent runs before the run is continued"
+    if asks:
+        ctx.ok("R28i", inst)
+    else:
+        ctx.fail("R28i", tr, tr.node, inst, "run_stopped writes the recent run and clears the recent engine's run id in two commits; restarted "
+                 "between them the aggregator continues a run that is already stored, and the resent run_stopped (or the next "
+                 "run_started, through the mismatch branch) stores it again - RecentRuns holds the run twice")
